@@ -66,7 +66,7 @@ def main():
 
     c = cmd
     if c is None:
-        m = re.search(r"^\s*(cargo (?:test|run|nextest)[^\n]*)$", readme, re.M)
+        m = re.search(r"^\s*(?:[A-Z_]+=\S+\s+)*(cargo (?:test|run|nextest)[^\n]*)$", readme, re.M)
         c = m.group(1).strip() if m else None
     assert c, "no demo command found; pass --cmd"
     c = c.replace("-j 6", "-j 8")
